@@ -12,12 +12,12 @@ rundemo() {
   if [ "$PKG" = "prog" ]; then
     mkdir -p "$S/repo/zz_demo" && cp "$M"/demo/main.go "$S/repo/zz_demo/main.go" && timeout 900 go run ./zz_demo
   else
-    cp "$M"/demo_test.go "$S/repo/$PKG/zz_demo_test.go" && timeout 900 go test -vet=off -count=1 -run 'Demo' "./$PKG"
+    for f in "$M"/demo*_test.go; do cp "$f" "$S/repo/$PKG/zz_$(basename "$f")"; done; timeout 900 go test -vet=off -count=1 -run "${DEMO_RUN:-Demo}" ${DEMO_FLAGS:-} "./$PKG"
   fi
 }
 rundemo > "$S/demo_before.txt" 2>&1; b=$?
 patch -p1 -s < "$M/patch.diff" || { echo "CONFIRM patch does not apply"; exit 3; }
-rm -f "$S/repo/$PKG/zz_demo_test.go"; rm -rf "$S/repo/zz_demo"
+rm -f "$S/repo/$PKG"/zz_demo*_test.go; rm -rf "$S/repo/zz_demo"
 go build ./... > "$S/build.txt" 2>&1; bl=$?
 go test -vet=off -count=1 ./... > "$S/tests.txt" 2>&1
 fails=$(grep -E "^(--- FAIL|FAIL|panic:)" "$S/tests.txt" | grep -v -E "TestEnglish|TestJapanese|bip39/internal/wordlists|^FAIL$" | head -5)
